@@ -82,6 +82,31 @@ def gen_extension_case(rnd):
     return f, dict(dims=dims, mets=mets, filters=[])
 
 
+def gen_long_chain_case(rnd):
+    """targeted family: two metric models SIX relationships apart -- two chains of three many_to_one hops that meet in a shared root (l0 -> l1 -> l2 -> root <- r2 <- r1 <- r0),
+    several rows per parent on every hop -- with a dimension of the root or of a model half way: the metrics of the two ends fan each other out through the root, so the
+    joint query must take the multi-fact form however long the path between them is"""
+    names = ["l0", "l1", "l2", "root", "r2", "r1", "r0"]
+    models = [dict(name=x, composite=False, rels=[], rows=[]) for x in names]
+    links = [(0, 1, "m2o", False), (1, 2, "m2o", False), (2, 3, "m2o", False), (4, 3, "m2o", False), (5, 4, "m2o", False), (6, 5, "m2o", False)]
+    for ci, pi, _, _ in links:
+        models[ci]["rels"].append(dict(name=names[pi], type="many_to_one", foreign_key="fk_a"))
+    parent_of = {ci: pi for ci, pi, _, _ in links}
+    sizes = {3: 2, 2: 3, 4: 3, 1: 4, 5: 4, 0: 6, 6: 5}
+    for i in (3, 2, 4, 1, 5, 0, 6):
+        for r in range(sizes[i]):
+            fk = None
+            if i in parent_of:
+                fk = (r % sizes[parent_of[i]]) + 1 if rnd.random() < 0.9 else None
+            models[i]["rows"].append([r + 1, "k%d" % (r + 1), rnd.choice([1, 2, 5, 10, 3]), rnd.choice([0, 1, 2]), rnd.choice(["a", "b"]), fk, None if fk is None else "k%d" % fk])
+    f = dict(models=models, links=links)
+    dm = rnd.choice(["root", "root", "l2", "r2"])
+    mets = [("l0", rnd.choice(["sum", "count"]), jg.jcol("c0"), []), ("r0", rnd.choice(["sum", "count"]), jg.jcol("c0"), [])]
+    if rnd.random() < 0.5:
+        mets.reverse()
+    return f, dict(dims=[(dm, jg.jcol("s0"))], mets=mets, filters=[])
+
+
 def run_impl(f, q, metric_idx=None, extra_filters=(), **kw):
     """joint query (metric_idx None) or the query with only metric number metric_idx; returns {colname: ...} rows as dicts"""
     dbm, mbm, drefs, mrefs = c02.field_names(q)
@@ -223,6 +248,9 @@ def run(c):
         cases.append((f, gen_query(c.rng, f)))
     cases += [gen_straddle_case(c.rng) for _ in range(max(8, n // 8))]
     cases += [gen_extension_case(c.rng) for _ in range(max(8, n // 10))]
+    import random as _random
+    rng_long = _random.Random(c.seed * 3 + 33)          # a stream of its own: the cases above stay what they were
+    cases += [gen_long_chain_case(rng_long) for _ in range(max(4, n // 40))]
     # every fourth case under model names that contain one another (items / line_items / order_line_items / itemsx / items_raw)
     cases = [jg.rename_case(f_, q_) if k_ % 4 == 1 else (f_, q_) for k_, (f_, q_) in enumerate(cases)]
     cf = jg.corpus_forest()
